@@ -73,8 +73,9 @@ pub mod macros_support {
 /// `tokio::select!` with tokio's semantics — all branches are polled in one `poll_fn`, the
 /// first `Ready` wins, the remaining futures are dropped before the handler runs — for 2..6
 /// branches of the form `pattern = future => handler`. The branch polled first is chosen by the
-/// simulator's PRNG instead of tokio's thread-local RNG. `else`, `if` preconditions and
-/// `biased;` are not supported (the repository uses none).
+/// simulator's PRNG instead of tokio's thread-local RNG. `, if <cond>` preconditions are
+/// supported (a disabled branch is not polled; all disabled panics as tokio does without an
+/// `else`); `else` and `biased;` are not (the repository uses none).
 #[macro_export]
 macro_rules! select {
     ($($t:tt)*) => { $crate::__select_parse!{ () $($t)* } };
@@ -83,17 +84,31 @@ macro_rules! select {
 #[doc(hidden)]
 #[macro_export]
 macro_rules! __select_parse {
+    // with precondition: `pat = fut, if cond => handler`
+    ( ($($acc:tt)*) $p:pat = $f:expr , if $c:expr => $h:block , $($rest:tt)* ) => {
+        $crate::__select_parse!{ ($($acc)* [{$p} {$f} {$c} {$h}]) $($rest)* }
+    };
+    ( ($($acc:tt)*) $p:pat = $f:expr , if $c:expr => $h:block $($rest:tt)* ) => {
+        $crate::__select_parse!{ ($($acc)* [{$p} {$f} {$c} {$h}]) $($rest)* }
+    };
+    ( ($($acc:tt)*) $p:pat = $f:expr , if $c:expr => $h:expr , $($rest:tt)* ) => {
+        $crate::__select_parse!{ ($($acc)* [{$p} {$f} {$c} {$h}]) $($rest)* }
+    };
+    ( ($($acc:tt)*) $p:pat = $f:expr , if $c:expr => $h:expr ) => {
+        $crate::__select_parse!{ ($($acc)* [{$p} {$f} {$c} {$h}]) }
+    };
+    // without precondition
     ( ($($acc:tt)*) $p:pat = $f:expr => $h:block , $($rest:tt)* ) => {
-        $crate::__select_parse!{ ($($acc)* [{$p} {$f} {$h}]) $($rest)* }
+        $crate::__select_parse!{ ($($acc)* [{$p} {$f} {true} {$h}]) $($rest)* }
     };
     ( ($($acc:tt)*) $p:pat = $f:expr => $h:block $($rest:tt)* ) => {
-        $crate::__select_parse!{ ($($acc)* [{$p} {$f} {$h}]) $($rest)* }
+        $crate::__select_parse!{ ($($acc)* [{$p} {$f} {true} {$h}]) $($rest)* }
     };
     ( ($($acc:tt)*) $p:pat = $f:expr => $h:expr , $($rest:tt)* ) => {
-        $crate::__select_parse!{ ($($acc)* [{$p} {$f} {$h}]) $($rest)* }
+        $crate::__select_parse!{ ($($acc)* [{$p} {$f} {true} {$h}]) $($rest)* }
     };
     ( ($($acc:tt)*) $p:pat = $f:expr => $h:expr ) => {
-        $crate::__select_parse!{ ($($acc)* [{$p} {$f} {$h}]) }
+        $crate::__select_parse!{ ($($acc)* [{$p} {$f} {true} {$h}]) }
     };
     ( ($($acc:tt)*) ) => { $crate::__select_emit!{ $($acc)* } };
 }
@@ -101,17 +116,22 @@ macro_rules! __select_parse {
 #[doc(hidden)]
 #[macro_export]
 macro_rules! __select_emit {
-    ( [{$p0:pat} {$f0:expr} {$h0:expr}] [{$p1:pat} {$f1:expr} {$h1:expr}] ) => {{
+    ( [{$p0:pat} {$f0:expr} {$c0:expr} {$h0:expr}] [{$p1:pat} {$f1:expr} {$c1:expr} {$h1:expr}] ) => {{
         let __out = {
+            let __e0: bool = $c0;
+            let __e1: bool = $c1;
             let mut __f0 = ::std::pin::pin!($f0);
             let mut __f1 = ::std::pin::pin!($f1);
+            if !(__e0 || __e1) {
+                panic!("all branches are disabled and there is no else branch");
+            }
             let __start = $crate::macros_support::select_start(2);
             $crate::macros_support::PollFn(|__cx: &mut $crate::macros_support::Context<'_>| {
                 use $crate::macros_support::{Future, Poll, Out2};
                 for __i in 0..2u32 {
                     match (__start + __i) % 2 {
-                        0 => if let Poll::Ready(v) = __f0.as_mut().poll(__cx) { return Poll::Ready(Out2::_0(v)); },
-                        _ => if let Poll::Ready(v) = __f1.as_mut().poll(__cx) { return Poll::Ready(Out2::_1(v)); },
+                        0 => if __e0 { if let Poll::Ready(v) = __f0.as_mut().poll(__cx) { return Poll::Ready(Out2::_0(v)); } },
+                        _ => if __e1 { if let Poll::Ready(v) = __f1.as_mut().poll(__cx) { return Poll::Ready(Out2::_1(v)); } },
                     }
                 }
                 Poll::Pending
@@ -122,19 +142,25 @@ macro_rules! __select_emit {
             $crate::macros_support::Out2::_1($p1) => $h1,
         }
     }};
-    ( [{$p0:pat} {$f0:expr} {$h0:expr}] [{$p1:pat} {$f1:expr} {$h1:expr}] [{$p2:pat} {$f2:expr} {$h2:expr}] ) => {{
+    ( [{$p0:pat} {$f0:expr} {$c0:expr} {$h0:expr}] [{$p1:pat} {$f1:expr} {$c1:expr} {$h1:expr}] [{$p2:pat} {$f2:expr} {$c2:expr} {$h2:expr}] ) => {{
         let __out = {
+            let __e0: bool = $c0;
+            let __e1: bool = $c1;
+            let __e2: bool = $c2;
             let mut __f0 = ::std::pin::pin!($f0);
             let mut __f1 = ::std::pin::pin!($f1);
             let mut __f2 = ::std::pin::pin!($f2);
+            if !(__e0 || __e1 || __e2) {
+                panic!("all branches are disabled and there is no else branch");
+            }
             let __start = $crate::macros_support::select_start(3);
             $crate::macros_support::PollFn(|__cx: &mut $crate::macros_support::Context<'_>| {
                 use $crate::macros_support::{Future, Poll, Out3};
                 for __i in 0..3u32 {
                     match (__start + __i) % 3 {
-                        0 => if let Poll::Ready(v) = __f0.as_mut().poll(__cx) { return Poll::Ready(Out3::_0(v)); },
-                        1 => if let Poll::Ready(v) = __f1.as_mut().poll(__cx) { return Poll::Ready(Out3::_1(v)); },
-                        _ => if let Poll::Ready(v) = __f2.as_mut().poll(__cx) { return Poll::Ready(Out3::_2(v)); },
+                        0 => if __e0 { if let Poll::Ready(v) = __f0.as_mut().poll(__cx) { return Poll::Ready(Out3::_0(v)); } },
+                        1 => if __e1 { if let Poll::Ready(v) = __f1.as_mut().poll(__cx) { return Poll::Ready(Out3::_1(v)); } },
+                        _ => if __e2 { if let Poll::Ready(v) = __f2.as_mut().poll(__cx) { return Poll::Ready(Out3::_2(v)); } },
                     }
                 }
                 Poll::Pending
@@ -146,21 +172,28 @@ macro_rules! __select_emit {
             $crate::macros_support::Out3::_2($p2) => $h2,
         }
     }};
-    ( [{$p0:pat} {$f0:expr} {$h0:expr}] [{$p1:pat} {$f1:expr} {$h1:expr}] [{$p2:pat} {$f2:expr} {$h2:expr}] [{$p3:pat} {$f3:expr} {$h3:expr}] ) => {{
+    ( [{$p0:pat} {$f0:expr} {$c0:expr} {$h0:expr}] [{$p1:pat} {$f1:expr} {$c1:expr} {$h1:expr}] [{$p2:pat} {$f2:expr} {$c2:expr} {$h2:expr}] [{$p3:pat} {$f3:expr} {$c3:expr} {$h3:expr}] ) => {{
         let __out = {
+            let __e0: bool = $c0;
+            let __e1: bool = $c1;
+            let __e2: bool = $c2;
+            let __e3: bool = $c3;
             let mut __f0 = ::std::pin::pin!($f0);
             let mut __f1 = ::std::pin::pin!($f1);
             let mut __f2 = ::std::pin::pin!($f2);
             let mut __f3 = ::std::pin::pin!($f3);
+            if !(__e0 || __e1 || __e2 || __e3) {
+                panic!("all branches are disabled and there is no else branch");
+            }
             let __start = $crate::macros_support::select_start(4);
             $crate::macros_support::PollFn(|__cx: &mut $crate::macros_support::Context<'_>| {
                 use $crate::macros_support::{Future, Poll, Out4};
                 for __i in 0..4u32 {
                     match (__start + __i) % 4 {
-                        0 => if let Poll::Ready(v) = __f0.as_mut().poll(__cx) { return Poll::Ready(Out4::_0(v)); },
-                        1 => if let Poll::Ready(v) = __f1.as_mut().poll(__cx) { return Poll::Ready(Out4::_1(v)); },
-                        2 => if let Poll::Ready(v) = __f2.as_mut().poll(__cx) { return Poll::Ready(Out4::_2(v)); },
-                        _ => if let Poll::Ready(v) = __f3.as_mut().poll(__cx) { return Poll::Ready(Out4::_3(v)); },
+                        0 => if __e0 { if let Poll::Ready(v) = __f0.as_mut().poll(__cx) { return Poll::Ready(Out4::_0(v)); } },
+                        1 => if __e1 { if let Poll::Ready(v) = __f1.as_mut().poll(__cx) { return Poll::Ready(Out4::_1(v)); } },
+                        2 => if __e2 { if let Poll::Ready(v) = __f2.as_mut().poll(__cx) { return Poll::Ready(Out4::_2(v)); } },
+                        _ => if __e3 { if let Poll::Ready(v) = __f3.as_mut().poll(__cx) { return Poll::Ready(Out4::_3(v)); } },
                     }
                 }
                 Poll::Pending
